@@ -21,6 +21,20 @@ class P(framework.Prop):
             return True
         return framework.canon(sobs) == framework.canon(iobs)
 
+    def oracle(self, case, iobs):
+        """One lexical rule checked on its own (both parsers share the lexer, so the reference parser cannot disagree about it):
+        number = ["-"] 1*digit, so an index or slice part spelled -0 / -0<digits> is a numeral of the language."""
+        import re as _re
+        if not case.startswith("parse "):
+            return None
+        try:
+            text = wire.uns(case.split(" ")[1])
+        except Exception:
+            return None
+        if _re.fullmatch(r"[a-z]*\[(-?\d*:){0,2}-0\d*(:-?\d*){0,2}\]", text) and text.count(":") <= 2 and iobs.startswith("ERR parse"):
+            return "the numeral after '[' is in the language (number = [\"-\"] 1*digit) but the expression %s is refused: %s" % (text, iobs[:40])
+        return None
+
     def cases(self, rng, tier):
         out = []
         N = 3000 if tier == "quick" else 150000
@@ -67,7 +81,7 @@ class P(framework.Prop):
 CHARS = ["\u00e9", "\u00b2", "\u0661", "\u4e2d", "\u00a0", "\u03b2", "\U0001f600", "\u2028", "_", "-", "0", "9", "a", "Z", "$", "%", "~", "^", "+", "/", ";", "?",
          "\\", "\"", "'", "`", " ", "\t", "\n", "\r", "\x0b", "\x00", "\x7f", "=", "<", ">", "!", "&", "|", ".", ",", ":", "(", ")", "[", "]", "{", "}", "*", "@", "#"]
 
-LEX = ["caf\u00e9", "a\u00b2", "a\u0661", "_\u00e9", "a.b\u00e4r", "\u00e9a", "", " ", "a", "-", "-0", "-1", "-01", "a[-0]", "a[2147483647]", "a[2147483648]", "a[-2147483647]", "a[-2147483648]", "a[00]", "a[01]",
+LEX = ["a[-0]", "a[-01]", "[-0:]", "a[1:-0]", "a[::-01]", "caf\u00e9", "a\u00b2", "a\u0661", "_\u00e9", "a.b\u00e4r", "\u00e9a", "", " ", "a", "-", "-0", "-1", "-01", "a[-0]", "a[2147483647]", "a[2147483648]", "a[-2147483647]", "a[-2147483648]", "a[00]", "a[01]",
        "a[1:2:3]", "a[1:2:3:4]", "a[::]", "a[:]", "a[::0]", "a[ 1 ]", "a[ ]", "[ ]", "[]", "a[ * ]", "a [*]", "a[*", "a[?b", "a[?]", "[?]",
        "'", "'a", "'a\\'", "'a\\'b'", "'\\\\'", "''", "`", "`1", "`1`", "`a`", "`\"a\"`", "`{\"a\":1}`", "`[1,`", "`1``", "`\\``", "` 1 `", "`1 2`",
        "\"", "\"a", "\"a\"", "\"\"", "\"a\\\"b\"", "\"\\u0061\"", "\"\\ud83d\\ude00\"", "\"\\ud83d\"", "\"\\x\"", "\"a\nb\"", "\"a\"(b)", "a.\"b\"",
